@@ -24,7 +24,7 @@ use zipora::memory::{MmapVec, MmapVecConfig, MmapVecConfigBuilder};
 mod breadth;
 
 const HEADER: &str = r#"From ZV.Common Require Import Base Run.
-From ZV.C10 Require Import Model ModelValVec32 ModelArena ModelStrVec ModelFixedLen ModelFastVecCopy ModelCacheVec ModelCases.
+From ZV.C10 Require Import Model ModelValVec32 ModelArena ModelStrVec ModelFixedLen ModelFastVecCopy ModelCacheVec ModelBitPacked ModelCases.
 Open Scope N_scope.
 "#;
 
@@ -1598,6 +1598,55 @@ fn fixedlen_history(cx: &mut Ctx, n: u64, ops: &[Value], coq: Coq) {
               32 => fixedlen_history_n::<32>(cx, ops, coq), 64 => fixedlen_history_n::<64>(cx, ops, coq), _ => fixedlen_history_n::<300>(cx, ops, coq) }
 }
 
+/// BitPackedStringVec32 / 64 as histories of push / get / get_bytes / len (M+S: coq/C10/ModelBitPacked.v); find_simd and iter() are
+/// observed against the shadow only
+fn bitpacked_history(cx: &mut Ctx, w64: bool, ops: &[Value], coq: Coq) {
+    let cell: &'static str = if w64 { "BitPackedStringVec64" } else { "BitPackedStringVec32" };
+    cx.sum.eval(cell, &format!("bitpacked {} {:?}", w64, ops), ops.len() >= 3);
+    cx.sum.cell_status(cell, "M+S");
+    let cj = json!({"cell": "bitpacked", "cap": if w64 { 64 } else { 32 }, "ops": ops});
+    if journal(&cj) { return; }
+    macro_rules! go { ($ty:ty) => {{
+        guarded(|| -> Result<(Vec<String>, Vec<String>), String> {
+            let mut v: $ty = match ops.len() % 3 { 0 => <$ty>::new(), 1 => <$ty>::with_capacity(ops.len()), _ => Default::default() };
+            let mut want: Vec<String> = vec![];
+            let mut coq_ops: Vec<String> = vec![]; let mut expect: Vec<String> = vec![];
+            for o in ops {
+                let code = o[0].as_u64().unwrap_or(0);
+                let i = o[1].as_u64().unwrap_or(0) as usize;
+                let mut e: Vec<i128> = vec![];
+                match code {
+                    0 => { let st = sop_str(o);
+                           match v.push(&st) { Ok(k) => { if k != want.len() { return Err(format!("push returned index {}, a Vec<String> holds {} strings", k, want.len())); } want.push(st); e = vec![7, k as i128]; }
+                                               Err(_) => { if st.len() < (1 << 24) { return Err(format!("push of a {}-byte string refused", st.len())); } e = vec![-1]; } }
+                           coq_ops.push(format!("PPush {}", sop_coq_str(o))); }
+                    1 => { let g = v.get(i).map(|x| x.to_string()); if g != want.get(i).cloned() { return Err(format!("get({}) = {:?}, a Vec<String> holds {:?}", i, g, want.get(i))); }
+                           match &g { None => e = vec![1], Some(x) => { e = vec![2]; enc_str(&mut e, x.as_bytes()); } } coq_ops.push(format!("PGet {}", i)); }
+                    2 => { let g = v.get_bytes(i).map(|x| x.to_vec()); if g.as_deref() != want.get(i).map(|x| x.as_bytes()) { return Err(format!("get_bytes({}) = {:?}, a Vec<String> holds {:?}", i, g, want.get(i))); }
+                           match &g { None => e = vec![1], Some(x) => { e = vec![2]; enc_str(&mut e, x); } } coq_ops.push(format!("PGetBytes {}", i)); }
+                    3 => { if v.len() != want.len() || v.is_empty() != want.is_empty() { return Err(format!("len() = {}, a Vec<String> holds {}", v.len(), want.len())); } e = vec![4, v.len() as i128]; coq_ops.push("PLen".into()); }
+                    4 => { let st = sop_str(o); let g = v.find_simd(&st); let w = want.iter().position(|x| *x == st);
+                           if g != w { return Err(format!("find_simd({:?}) = {:?}, the first occurrence is {:?}", st, g, w)); } }
+                    _ => { let g: Vec<String> = v.iter().map(|x| x.to_string()).collect(); if g != want { return Err(format!("iter() yields {} strings, a Vec<String> holds {}", g.len(), want.len())); } }
+                }
+                let n = want.len();
+                if v.len() != n { return Err(format!("after op {:?}: len() = {}, a Vec<String> holds {}", o[0], v.len(), n)); }
+                for j in [0usize, n / 2, n.wrapping_sub(1)] { if j < n && v.get(j) != Some(want[j].as_str()) { return Err(format!("after op {:?}: get({}) = {:?}, pushed {:?}", o[0], j, v.get(j), want[j])); } }
+                if v.get(n).is_some() || v.get_bytes(n + 1).is_some() { return Err("get past the end was not refused".into()); }
+                if !e.is_empty() { expect.push(zlist(&e)); }
+            }
+            Ok((coq_ops, expect))
+        })
+    }} }
+    let r = if w64 { go!(BitPackedStringVec64) } else { go!(BitPackedStringVec32) };
+    match r {
+        Err(p) => cx.sum.fail(cell, None, cj, &format!("panicked: {}", p)),
+        Ok(Err(d)) => cx.sum.fail(cell, None, cj, &d),
+        Ok(Ok((coq_ops, expect))) => if coq == Coq::Always || (coq == Coq::Budget && cx.room(cell)) {
+            cx.shards.push(format!("CBitP {} [{}] [{}]", w64, coq_ops.join("; "), expect.join("; ")), cj); }
+    }
+}
+
 /// FixedLenStrVec at the 24-bit arena limit (oracle only: 65 793 pushes of 255 bytes fill the arena to 2^24 - 1 bytes)
 fn fixedlen_limit(cx: &mut Ctx) {
     let cell = "FixedLenStrVec<300>";
@@ -1775,6 +1824,7 @@ fn run_one(cx: &mut Ctx, c: &Value, args: &Args) {
         "fastvec_probe" => fastvec_probe(cx, args, c["mode"].as_u64().unwrap_or(0)),
         "strvec" => strvec_history(cx, c["ops"].as_array().map(|a| a.as_slice()).unwrap_or(&[]), Coq::Always),
         "fixedlen" => fixedlen_history(cx, cap, c["ops"].as_array().map(|a| a.as_slice()).unwrap_or(&[]), Coq::Always),
+        "bitpacked" => bitpacked_history(cx, cap == 64, c["ops"].as_array().map(|a| a.as_slice()).unwrap_or(&[]), Coq::Always),
         "fixedlen_limit" => fixedlen_limit(cx),
         "str" => { let strs: Vec<String> = c["strs"].as_array().map(|a| a.iter().map(|s| s.as_str().unwrap_or("").to_string()).collect()).unwrap_or_default();
                    str_case(cx, c["kind"].as_u64().unwrap_or(0), &strs, c["mode"].as_u64().unwrap_or(0)) }
@@ -1799,7 +1849,8 @@ fn run_inner(args: &Args) {
     let k = if args.thorough { 6 } else { 1 };
     for (c, n) in [("AutoGrowCircularQueue", 750), ("FixedCircularQueue", 100), ("FastVec<El>", 150), ("ValVec32<El>", 120), ("ValVec32<u64>", 80),
                    ("FastVec<u64>", 80), ("FastVec<u8>", 80), ("SortableStrVec", 80), ("FixedLenStrVec", 60),
-                   ("CacheAlignedVec<El>", 40), ("CacheAlignedVec<u8>", 30), ("BumpVec<El>", 30)] {
+                   ("CacheAlignedVec<El>", 40), ("CacheAlignedVec<u8>", 30), ("BumpVec<El>", 30),
+                   ("BitPackedStringVec32", 30), ("BitPackedStringVec64", 30)] {
         cx.budgets.insert(c, (0, n * k));
     }
     for c in ["AutoGrowCircularQueue", "FixedCircularQueue", "FastVec<El>"] { cx.sum.cell_status(c, "M+S"); }
@@ -1883,6 +1934,8 @@ fn run_inner(args: &Args) {
             let n = [4u64, 8, 16, 300, 32, 64][((i / 3) % 6) as usize];
             let ops = gen_str_ops(&mut rng, Some(n as usize));
             fixedlen_history(&mut cx, n, &ops, Coq::Budget);
+            let ops = gen_str_ops(&mut rng, Some(300));
+            bitpacked_history(&mut cx, (i / 3) % 2 == 0, &ops, Coq::Budget);
         }
         let kind = i % STR_KINDS;
         let strs = gen_strings(&mut rng, kind);
